@@ -90,6 +90,7 @@ pub fn gen_stack_scenario(rng: &mut Rng, tier: Tier, stats: &mut GenStats, prop:
         mutations: vec![],
         schedule,
         triggers: vec![],
+        lazy: false,
     }
 }
 
